@@ -296,6 +296,10 @@ val is_bulk : opk -> bool
 
 val is_local : opk -> bool
 
+val is_steal : opk -> bool
+
+val is_own : opk -> bool
+
 val call_ok : nat -> opk -> bool
 
 val entry : opk -> pcT
@@ -328,9 +332,11 @@ val init : nat -> st
 
 val run : nat -> bool -> st -> action list -> st option
 
-type aux = { amap : (z * nat) list; nxt : nat }
+type aux = { amap : (z * nat) list; nxt : nat; rcnt : (nat -> nat) }
 
 val aux0 : aux
+
+val set_rcnt : aux -> nat -> nat -> aux
 
 val look : (z * nat) list -> z -> nat option
 
